@@ -463,7 +463,7 @@ def c06(v, tier, seed):
     import container
     with v.growth_scope("AcfContainer.tla (control-format container with several mixed ACF-CAN messages)"):
         for ctrls, mx, ls, nbg in ((("Tscf", "Ntscf"), 2, (0, 1, 2, 3, 4, 5, 8), 1),) + (() if q else ((("Tscf", "Ntscf"), 3, (0, 3, 4, 8, 64), 1), (("Ntscf",), 2, tuple(range(0, 17)) + (63, 64), 2))):
-            res = run_tlc("AcfContainer", container.cfg(ctrls, mx, ls, nbg), wd)
+            res = run_tlc("AcfContainer", container.cfg(ctrls, mx, ls, nbg, 2 if (mx == 2 and len(ctrls) == 2) else 1), wd)     # reopen / second close only in the small instance
             v.add_tlc("AcfContainer/max%d" % mx, res)
             if not res.ok: raise Infra("AcfContainer violates its own theorem:\n%s" % ((res.violation or "")[-1500:]))
             st = container.replay(v, ex, res.emitted, rnd)
